@@ -551,3 +551,5 @@ M('C19', 'add/sub without transposing the right operand', 'expression_v1.py', " 
 M('C19', 'benign: substitution transposes the left side instead', 'expression_v1.py', "        rhs = rhs.transpose(lhs.indices)\n        return lhs, rhs", "        rhs = rhs.transpose(lhs.indices)\n        assert rhs.indices == lhs.indices\n        return lhs, rhs", expect='silent')
 M('C07', 'revert F24: det hands integer operands to Determinant', 'function.py', "            raise ValueError('Last 2 dimensions of the array must be square')\n        if a.dtype in (bool, int):\n            a = a.astype(float)\n        return _Wrapper(evaluable.Determinant", "            raise ValueError('Last 2 dimensions of the array must be square')\n        return _Wrapper(evaluable.Determinant", rule='R07.9')
 M('C07', 'benign: inv rejects integer operands instead of converting', 'function.py', "        if a.dtype in (bool, int):\n            a = a.astype(float)\n        return _Wrapper(evaluable.Inverse", "        if a.dtype in (bool, int):\n            raise TypeError('integer matrices cannot be inverted')\n        return _Wrapper(evaluable.Inverse", expect='silent')
+M('C15', 'seed C15-agent2-3: csr row pointers from bincount without minlength', 'matrix/_numpy.py', "rows.searchsorted(numpy.arange(self.shape[0]+1))", "numpy.concatenate([[0], numpy.bincount(rows).cumsum()])", rule='R15.3')
+M('C15', 'benign: csr row pointers from bincount with minlength', 'matrix/_numpy.py', "rows.searchsorted(numpy.arange(self.shape[0]+1))", "numpy.concatenate([[0], numpy.bincount(rows, minlength=self.shape[0]).cumsum()])", expect='silent')
